@@ -13,10 +13,11 @@ PY = "/venv/bin/python"
 
 NA = {
     "C01": "statistical convergence of estimators over all histories; no sound static bound on sampled values (see DESIGN.md section 3, C01)",
-    "C02": "numerical identity (permanent ratios) over a matrix family; no structural necessary condition that is not a frozen idiom (DESIGN.md section 3, C02)",
 }
 
 TEXT = {
+    "C02": ("the plumbing around the numeric kernels: typestate analysis (NONE / OK / STALE) of the memoised P matrix over the CFG of every method of REPEX_state with callee summaries (no read of a matrix computed for an earlier weight matrix or busy set, no stale exit of an externally called method, only the getter stores), provenance of the getter's arguments, one busy mask for both axes with zero re-insertion at positions counted from the same mask, the row sort undone through the index that sorted, read window = write window for every kernel call, shape of the permanent formula in permanent_prob (entry, minor, skip condition, per-row rescaling on a copy)",
+            "does not decide that fast_glynn_perm computes the permanent, that quick_prob is the closed form for 0/1 staircases, that find_blocks finds the blocks, random_prob, nor double stochasticity as a numeric fact"),
     "C10": ("exact finite abstraction of the wire-fencing scan (order parameters touched only through comparisons with the two bounds: 5 regions), abstract interpretation of the loop body over bool / region / affine-integer values giving the implementation's transducer, product with the transducer written from the property text explored to a fixpoint (equal emissions as affine forms at every reachable product state; witness word on a mismatch), shape of the proportional selection law and of the segment layout, weight-vector plumbing of calc_cv_vector / compute_weight, sibling agreement of the (left, right) pair across the three call chains and of the move/interface index shift",
             "does not decide the numeric value of the high-acceptance swap ratio, nor that left < right at run time (assumed; enforced for wf ensembles by check_config)"),
     "C03": ("lock/ownership discipline on AST+CFG: who-may-write busy flags, checked acquire/release by dominance, acquire-on-all-paths before a job is recorded, zero-swap partner only when idle (case split over contradictory disjuncts), engine claim under a free test on the same slot, one claim call per job, private worker directory provenance, path-number representation (int vs str) inference, whole busy set consulted, no stale loop variables",
